@@ -92,11 +92,30 @@ func runC20(c *Ctx, r *Report, tier string) {
 
 	// ---- THRESHOLD
 	nTh := 0
+	// the suggestion: a "did you mean" text built by fmt.Sprintf or by string concatenation
+	type sugSite struct {
+		in    ssa.Instruction
+		names []ssa.Value // the values printed with it
+	}
+	var sugSites []sugSite
 	for _, in := range c.instrs(ec, c.isCallTo("fmt.Sprintf")) {
 		call := in.(*ssa.Call)
-		if f, ok := constStr(call.Call.Args[0]); !ok || !strings.Contains(f, "did you mean") {
-			continue
+		if f, ok := constStr(call.Call.Args[0]); ok && strings.Contains(f, "did you mean") {
+			sugSites = append(sugSites, sugSite{in, sliceLitElems(call.Call.Args[1])})
 		}
+	}
+	for _, in := range c.instrs(ec, func(in ssa.Instruction) bool { bo, ok := in.(*ssa.BinOp); return ok && bo.Op == token.ADD }) {
+		bo := in.(*ssa.BinOp)
+		if s, ok := constStr(bo.X); ok && strings.Contains(s, "did you mean") {
+			sugSites = append(sugSites, sugSite{in, []ssa.Value{bo.Y}})
+		} else if l, ok := bo.X.(*ssa.BinOp); ok && l.Op == token.ADD {
+			if s, ok := constStr(l.Y); ok && strings.Contains(s, "did you mean") {
+				sugSites = append(sugSites, sugSite{in, []ssa.Value{bo.Y}})
+			}
+		}
+	}
+	for _, ss := range sugSites {
+		in := ss.in
 		nTh++
 		cName := "call:closestChoice("
 		okLit := func(l Lit) bool {
@@ -116,7 +135,7 @@ func runC20(c *Ctx, r *Report, tier string) {
 		r.Check(ok, "THRESHOLD", en, "`did you mean` guard", c.ipos(in), "REQ(distance / characters(suggested name) < 0.5), strict", "the suggestion is reachable without the strict test distance/characters(name) < 0.5")
 		// suggested name is closestChoice's
 		sug := false
-		for _, e := range sliceLitElems(call.Call.Args[1]) {
+		for _, e := range ss.names {
 			if strings.HasPrefix(c.term(e), cName) && strings.HasSuffix(c.term(e), "#0") {
 				sug = true
 			}
@@ -242,6 +261,9 @@ func (c *Ctx) dpRules(r *Report, lv *ssa.Function) {
 		case "len(" + S + ")":
 			_, ok := c.Requires(lv, isInstr(ret), litHas(false, "nonempty("+T+")"), nil)
 			r.Check(ok, "DP", ln, "return len(s)", c.ipos(ret), "only when t is empty", "len(s) returned although t may be non-empty")
+		case "0":
+			_, ok := c.Requires(lv, isInstr(ret), litEq("P0", "P1", true), nil)
+			r.Check(ok, "DP", ln, "return 0", c.ipos(ret), "only for equal strings", "0 returned although the strings may differ")
 		case "idx(idx(makeslice[[][]int]((len(" + S + ") + 1)), len(" + S + ")), len(" + T + "))":
 			r.OK("DP", ln, "return last cell", c.ipos(ret), "dists[len(s)][len(t)]")
 		default:
